@@ -8,6 +8,7 @@
 -/
 import Golib.Prim.Extra
 import Golib.Prim.Stream
+import Golib.Prim.Api
 
 namespace C01
 open Prim
@@ -177,7 +178,174 @@ theorem program_stream_truncated_fails (ops : List Op) (fs : List Bytes) (s : By
     P.runC (readAll ops) fs = none :=
   P.runC_none_of_run (readAll ops) fs (program_prefix_fails ops fs.flatten s h hs hq)
 
+/-! ### fourth round: the rest of the exported API (Golib.Prim.Api), statements at full strength -/
+
+/-- lossless in the strongest sense: two programs of the same reads whose bytes (followed by
+    anything) are equal are the same program followed by the same thing — no two values of a type
+    share an encoding, and no encoding is a prefix of another -/
+theorem encode_injective (ops₁ ops₂ : List Op) (r₁ r₂ : Bytes)
+    (h₁ : ∀ op ∈ ops₁, WFOp op) (h₂ : ∀ op ∈ ops₂, WFOp op)
+    (hk : readAll ops₁ = readAll ops₂) (he : writeAll ops₁ ++ r₁ = writeAll ops₂ ++ r₂) :
+    ops₁ = ops₂ ∧ r₁ = r₂ := by
+  have a := Prim.program_roundtrip ops₁ r₁ h₁
+  have b := Prim.program_roundtrip ops₂ r₂ h₂
+  rw [hk, he, b] at a
+  simp only [Option.some.injEq, Prod.mk.injEq] at a
+  exact ⟨a.1.symm, a.2.symm⟩
+
+/-- `Available()` after a program was read is what followed the program: consumed + available =
+    size, for *every* decoder and every input on which it succeeds -/
+theorem available_is_rest {α : Type} (p : P α) (bs : Bytes) (v : α) (r : Bytes)
+    (h : P.run p bs = some (v, r)) : ∃ consumed, bs = consumed ++ r ∧ r.length = bs.length - consumed.length := by
+  obtain ⟨a, ha, _⟩ := P.locality p bs v r h
+  exact ⟨a, ha, by rw [ha]; simp⟩
+
+/-- the decimal's length byte names the least class and nothing else: iff -/
+theorem decimal_length_iff (v : Int) (c : Nat) :
+    (encDecimal v).length = 1 + c ↔ c = leastClass v := by
+  rw [encDecimal_length]; omega
+
+/-- `ReadBytes(sz)`: succeeds exactly when `0 ≤ sz ≤ available`, returns exactly the next `sz`
+    bytes and leaves exactly the rest (iff; the size is signed in the Go code) -/
+theorem read_bytes_iff (sz : Int) (bs out r : Bytes) :
+    P.run (rdBytesI sz) bs = some (out, r) ↔
+      0 ≤ sz ∧ sz ≤ (bs.length : Int) ∧ out = bs.take sz.toNat ∧ r = bs.drop sz.toNat :=
+  run_rdBytesI_iff sz bs out r
+
+/-- `WriteBytes(b)` then `ReadBytes(len b)` is the identity, whatever follows -/
+theorem raw_bytes_roundtrip (b r : Bytes) :
+    P.run (rdBytesI b.length) (b ++ r) = some (b, r) := by
+  rw [read_bytes_iff]
+  refine ⟨by omega, by rw [List.length_append]; omega, by simp, by simp⟩
+
+/-- `CheckCount(count, minBytes)` passes exactly when `count` elements of `minBytes` bytes fit -/
+theorem check_count_iff (count : Int) (mb avail : Nat) (hmb : 1 ≤ mb) :
+    checkCount count mb avail = true ↔ 0 ≤ count ∧ count.toNat * mb ≤ avail :=
+  checkCount_iff count mb avail hmb
+
+/-- **the guard is invisible.**  On every input — well formed, truncated or garbage — each typed
+    array read *with* its `CheckCount` (as the Go code runs it on a byte slice) is the model's
+    array read without it: the guard rejects only what the element reads would reject anyway.
+    So `op_roundtrip`/`program_roundtrip` speak about the guarded code as well. -/
+theorem check_count_invisible (bs : Bytes) :
+    runArrGuarded (rdI 2) 2 bs = P.run (decArr (rdI 2)) bs ∧
+    runArrGuarded (rdI 4) 4 bs = P.run (decArr (rdI 4)) bs ∧
+    runArrGuarded (rdI 8) 8 bs = P.run (decArr (rdI 8)) bs ∧
+    runArrGuarded (rdU 4) 4 bs = P.run (decArr (rdU 4)) bs ∧
+    runArrGuarded (rdU 8) 8 bs = P.run (decArr (rdU 8)) bs ∧
+    runArrGuarded decBlob 1 bs = P.run (decArr decBlob) bs ∧
+    runDecArrGuarded bs = P.run decDecArr bs :=
+  ⟨runArrGuarded_eq _ 2 (by omega) (consumes_rdI 2) bs, runArrGuarded_eq _ 4 (by omega) (consumes_rdI 4) bs,
+   runArrGuarded_eq _ 8 (by omega) (consumes_rdI 8) bs, runArrGuarded_eq _ 4 (by omega) (consumes_rdU 4) bs,
+   runArrGuarded_eq _ 8 (by omega) (consumes_rdU 8) bs, runArrGuarded_eq _ 1 (by omega) consumes_decBlob bs,
+   runDecArrGuarded_eq consumes_decDecimal bs⟩
+
+/-- a guarded array read of what the array writer produced returns the array (the guard never
+    rejects a well-formed array) -/
+theorem guarded_array_roundtrip (xs : List Int) (r : Bytes) (hl : xs.length ≤ 32767)
+    (h : ∀ x ∈ xs, inRange 4 x) :
+    runArrGuarded (rdI 4) 4 (encArr (encI 4) xs ++ r) = some (xs, r) := by
+  rw [(check_count_invisible _).2.1]
+  exact run_decArr _ _ _ (fun x r hx => run_rdI 4 x r hx) xs r hl h
+
+/-- `ToX(buf, pos)`: a field embedded at any offset reads as the field itself (signed, unsigned,
+    little-endian), whatever stands before and behind it -/
+theorem field_at_offset (w : Nat) (v : Int) (pre suf : Bytes) (h : inRange w v) :
+    fieldI w (pre ++ encI w v ++ suf) pre.length = some v ∧
+    fieldU w (pre ++ encI w v ++ suf) pre.length = some (toU w v) ∧
+    fieldILittle w (pre ++ (encI w v).reverse ++ suf) pre.length = some v := by
+  have e1 := getAt_embedded pre (encI w v) suf
+  have e2 := getAt_embedded pre (encI w v).reverse suf
+  rw [encI_length] at e1
+  rw [List.length_reverse, encI_length] at e2
+  refine ⟨?_, ?_, ?_⟩
+  · simp only [fieldI, e1, Option.map_some, decI_encI w v h]
+  · simp only [fieldU, e1, Option.map_some]
+    congr 1
+    exact unbeN_beN_of_lt w (toU w v) (toU_lt w v)
+  · simp only [fieldILittle, e2, Option.map_some, decILittle_reverse_encI w v h]
+
+/-- `ToBool(buf, pos)` reads back what `SetBytesBool`/`ToBytesBool` packed at that offset (it is
+    `byte != 0`; `ReadBool` on a stream is `byte == 1`; the writers emit only 0 and 1) -/
+theorem bool_field (b : Bool) (pre suf : Bytes) :
+    fieldBool (pre ++ encBool b ++ suf) pre.length = some b := by
+  have e := getAt_embedded pre (encBool b) suf
+  have l : (encBool b).length = 1 := rfl
+  rw [l] at e
+  simp only [fieldBool, e, Option.map_some]
+  cases b <;> rfl
+
+/-- `Get(buf, pos, sz)` is the window, and fails exactly when the window leaves the buffer -/
+theorem get_window (buf : Bytes) (pos sz : Nat) :
+    (getAt buf pos sz = none ↔ buf.length < pos + sz) ∧
+    (∀ out, getAt buf pos sz = some out → out = (buf.drop pos).take sz ∧ out.length = sz) := by
+  unfold getAt
+  constructor
+  · by_cases h : pos + sz ≤ buf.length
+    · rw [if_pos h]; constructor
+      · intro h'; cases h'
+      · intro h'; omega
+    · rw [if_neg h]; constructor
+      · intro _; omega
+      · intro _; rfl
+  · intro out h
+    by_cases hl : pos + sz ≤ buf.length
+    · rw [if_pos hl] at h
+      simp only [Option.some.injEq] at h
+      subst h
+      exact ⟨rfl, by rw [List.length_take, List.length_drop]; omega⟩
+    · rw [if_neg hl] at h; cases h
+
+/-- `SetBytesX(buf, off, v)`: the buffer keeps its length, the field reads back as `v` at `off`, and
+    every byte before and behind the field is untouched (frame condition) -/
+theorem set_bytes_frame (w : Nat) (v : Int) (buf out : Bytes) (off : Nat) (hv : inRange w v)
+    (h : setAt buf off (encI w v) = some out) :
+    out.length = buf.length ∧ fieldI w out off = some v ∧
+    out.take off = buf.take off ∧ out.drop (off + w) = buf.drop (off + w) := by
+  have s := setAt_spec buf off (encI w v) out h
+  rw [encI_length] at s
+  exact ⟨s.1, by simp [fieldI, s.2.1, decI_encI w v hv], s.2.2.1, s.2.2.2⟩
+
+/-- … and it fails (index out of range) exactly when the field does not fit -/
+theorem set_bytes_fails_iff (buf : Bytes) (off : Nat) (bs : Bytes) :
+    setAt buf off bs = none ↔ buf.length < off + bs.length := by
+  unfold setAt
+  by_cases h : off + bs.length ≤ buf.length
+  · rw [if_pos h]; constructor
+    · intro h'; cases h'
+    · intro h'; omega
+  · rw [if_neg h]; constructor
+    · intro _; omega
+    · intro _; rfl
+
+/-- **every history of one output stream** — typed writes, `WriteBytes`, `Write(b,off,sz)` and the
+    three frame headers in any order and any number — refines the abstract specification
+    `foldl specStep`: the buffer is the specified byte string and `Size()` is its length after
+    every step (a header wraps what was written so far, and writing goes on behind it) -/
+theorem writer_history (h : List WStep) (hs : ∀ s ∈ h, s.ok) :
+    (h.foldl Writer.step Writer.empty).buf = h.foldl specStep [] ∧
+    (h.foldl Writer.step Writer.empty).written = (h.foldl Writer.step Writer.empty).buf.length :=
+  Writer.history_spec h Writer.empty hs rfl
+
 /-! non-vacuity: concrete non-trivial programs meet the hypotheses -/
+example : (∀ s ∈ [WStep.op (.decimal 300), .window [1, 2, 3, 4] 1 2, .header 7 1 5 (-1), .bytes [9]], s.ok) ∧
+    ([WStep.op (.decimal 300), .window [1, 2, 3, 4] 1 2, .header 7 1 5 (-1), .bytes [9]].foldl specStep []).length = 28 := by
+  constructor
+  · intro s h
+    simp only [List.mem_cons, List.mem_nil_iff, or_false] at h
+    rcases h with rfl | rfl | rfl | rfl <;> simp [WStep.ok]
+  · decide
+example : readAll [Op.int 5, .text [1]] = readAll [Op.int (-7), .text []] := rfl
+example : checkCount 3 4 12 = true ∧ checkCount 3 4 11 = false ∧ checkCount (-1) 4 100 = false ∧
+    checkCount 5 0 5 = true := by decide
+-- a count that the guard rejects, and the unguarded read fails on the same bytes
+example : runArrGuarded (rdI 4) 4 [0, 2, 0, 0, 0, 1, 0, 0] = none ∧
+    P.run (decArr (rdI 4)) [0, 2, 0, 0, 0, 1, 0, 0] = none := by decide
+example : setAt [9, 9, 9, 9, 9] 1 (encI 2 (-2)) = some [9, 255, 254, 9, 9] := by decide
+example : fieldI 3 [7, 255, 255, 254, 7] 1 = some (-2) ∧ fieldI 3 [7, 255, 255] 1 = none := by decide
+example : P.run (rdBytesI (-1)) [1, 2] = none ∧ P.run (rdBytesI 3) [1, 2] = none ∧
+    P.run (rdBytesI 2) [1, 2, 3] = some ([1, 2], [3]) := by decide
+
 example : ∀ op ∈ [Op.decimal (-129), .blob [1, 2, 3], .shortArr [1, -2], .text []],
     WFOp op := by
   intro op h
